@@ -99,6 +99,9 @@ type LoopCase struct {
 	// Peer snapshots are only delivered once that phase is over.
 	OwnAtStart    bool `json:"own_at_start,omitempty"`
 	ExcludedEmpty int  `json:"excluded_empty,omitempty"`
+	// OwnCorruptOnly: the only blob under the instance's own name is undecodable (an old, damaged upload): once it has
+	// been found undecodable the instance goes on - merges its peers and publishes its own data
+	OwnCorruptOnly bool `json:"own_corrupt_only,omitempty"`
 	// OnlyTxnIDs (C14's use of this harness): only the header-transaction-id oracle decides; what the
 	// content oracles (C03/C09) would report is left to the checks of those properties
 	OnlyTxnIDs bool `json:"only_txn_ids,omitempty"`
@@ -591,6 +594,9 @@ func runLoopCase(c LoopCase, o *vcore.Obs) (*loopStats, error) {
 		nd.Stop()
 		h.SetPlan("load", []string{fault.Fail, fault.Fail, fault.Fail})
 		ownPhase = true
+	}
+	if c.OwnCorruptOnly && len(c.Start) > 0 && !c.OwnAtStart {
+		b.Put(snapshot.Name(DBName, "a", "GX", time.Date(2020, 1, 1, 0, 0, 0, 0, time.UTC)), []byte("damaged upload: not a gzip stream"))
 	}
 	dlBase, _ := nd.Downloads()
 	if ownPhase {
@@ -1217,6 +1223,7 @@ func genLoopCase(t *rapid.T) LoopCase {
 	c.SweeperRuns = !c.Sweeper && rapid.IntRange(0, 4).Draw(t, "sweeper_runs") == 0
 	c.OwnAtStart = rapid.IntRange(0, 4).Draw(t, "own_at_start") == 0
 	c.Pad = rapid.IntRange(0, 3).Draw(t, "pad") == 0
+	c.OwnCorruptOnly = !c.OwnAtStart && rapid.IntRange(0, 5).Draw(t, "own_corrupt_only") == 0
 	nkeys := rapid.IntRange(1, 3).Draw(t, "nkeys")
 	if rapid.IntRange(0, 2).Draw(t, "start?") > 0 {
 		for i := 0; i < rapid.IntRange(1, 3).Draw(t, "nstart"); i++ {
@@ -1297,10 +1304,12 @@ type enumLoop struct {
 	// NewDBIFirst: all local data lives in the SECOND DBI (by name); the later peer snapshot brings a DBI that does not
 	// exist locally and sorts first, plus an OLDER version of the key the application overwrites
 	NewDBIFirst bool `json:"new_dbi_first,omitempty"`
+	// OwnCorruptOnly: the only blob stored under the instance's own name is undecodable
+	OwnCorruptOnly bool `json:"own_corrupt_only,omitempty"`
 }
 
 func (e enumLoop) toCase() LoopCase {
-	c := LoopCase{Native: e.Native, ReceiveOnly: e.ReceiveOnly, Sweeper: e.Sweeper, Force: e.Force, SweeperRuns: e.SweeperRuns, OwnAtStart: e.OwnAtStart}
+	c := LoopCase{Native: e.Native, ReceiveOnly: e.ReceiveOnly, Sweeper: e.Sweeper, Force: e.Force, SweeperRuns: e.SweeperRuns, OwnAtStart: e.OwnAtStart, OwnCorruptOnly: e.OwnCorruptOnly}
 	if e.NewDBIFirst {
 		ts := uint64(0)
 		if e.Native {
@@ -1440,6 +1449,14 @@ func TestC03Enum(t *testing.T) {
 						// the same commit on a receive-only instance (captures, merges, never uploads)
 						if !yield(enumLoop{Native: native, Point: p, Kind: k, PeerNoop: false, LocalFirst: true, ReceiveOnly: true}) {
 							return
+						}
+						// the only blob under the instance's own name is undecodable
+						if k == "insert" {
+							for _, lf := range []bool{false, true} {
+								if !yield(enumLoop{Native: native, Point: p, Kind: k, PeerNoop: false, LocalFirst: lf, OwnCorruptOnly: true}) {
+									return
+								}
+							}
 						}
 						// an overwrite by a value that is a suffix of the stored one
 						if k == "overwrite" {
@@ -1604,6 +1621,35 @@ func TestC04LoopEnum(t *testing.T) {
 							if !yield(e) {
 								return
 							}
+						}
+					}
+				}
+			}
+		},
+		func(e enumLoop, o *vcore.Obs) error {
+			c := e.toCase()
+			st, err := runLoopCase(c, o)
+			classifyLoop(c, st, o)
+			if err != nil {
+				return err
+			}
+			o.NonTrivial(st.appBetween)
+			return nil
+		})
+}
+
+// ---- C08 inside the real loop: an undecodable blob under the instance's OWN name does not block the instance ----
+
+func TestC08OwnCorruptEnum(t *testing.T) {
+	points := loopYieldPoints[:nMainPoints]
+	vcore.RunEnum(t, vcore.Config{Property: "C08", Inflight: true,
+		Rule: "enumeration over the real sync loop: the only blob stored under the instance's own name is undecodable (a damaged old upload); the instance has local data, merges two peer snapshots and its application commits at EVERY yield point x {native, shadow} x {another commit precedes or not}: the damaged blob is ignored after the first attempt, the loop becomes idle and the newest own snapshot then carries the application's data (the instance is not blocked); non-trivial = the commit fell between two LS transactions"},
+		func(yield func(enumLoop) bool) {
+			for _, native := range []bool{true, false} {
+				for _, p := range points {
+					for _, lf := range []bool{false, true} {
+						if !yield(enumLoop{Native: native, Point: p, Kind: "insert", LocalFirst: lf, OwnCorruptOnly: true}) {
+							return
 						}
 					}
 				}
